@@ -83,6 +83,9 @@ struct World<'a> {
     /// indices into `peers`: among the node's K closest / not
     close: Vec<usize>,
     far: Vec<usize>,
+    /// indices into `peers`: in the routing table / left it
+    members: Vec<usize>,
+    gone: Vec<usize>,
     unknown: Keypair,
     stranger_node: Keypair,
     pad_owners: Vec<bls::SecretKey>,
@@ -153,6 +156,8 @@ impl<'a> World<'a> {
             peers: vec![],
             close: vec![],
             far: vec![],
+            members: vec![],
+            gone: vec![],
             unknown: data::ed_key(s, 9_000),
             stranger_node: data::ed_key(s, 9_001),
             pad_owners: (0..2).map(|i| data::bls_key(s, 100 + i)).collect(),
@@ -194,7 +199,16 @@ impl<'a> World<'a> {
         }
         // independent view of who is among the K closest: self + the 19 routing-table peers nearest by the
         // harness's own XOR distance. The code's own answer is only compared with it, never used to classify.
-        let mut order: Vec<usize> = inserted.clone();
+        self.members = inserted.clone();
+        self.classify_peers();
+    }
+
+    /// close / far from the harness's own metric over the current members of the routing table
+    fn classify_peers(&mut self) {
+        let me = self.host.peer.to_bytes();
+        self.close.clear();
+        self.far.clear();
+        let mut order: Vec<usize> = self.members.clone();
         order.sort_by_key(|i| data::xor_distance(&me, &self.peers[*i].1.to_bytes()));
         let real_close: HashSet<PeerId> = self.host.driver.verif_closest_k_local_peers().into_iter().collect();
         for (rank, i) in order.iter().enumerate() {
@@ -310,7 +324,11 @@ impl<'a> World<'a> {
                 (self.host.keypair.clone(), self.host.peer)
             } else if let Some((fi, how)) = far {
                 if fi as usize == i {
-                    if how == 0 && !self.far.is_empty() {
+                    if how == 2 && !self.gone.is_empty() {
+                        let (k, pid) = &self.peers[self.gone[i % self.gone.len()]];
+                        self.rep.fault("payee_has_left_the_routing_table");
+                        (k.clone(), *pid)
+                    } else if how == 0 && !self.far.is_empty() {
                         let (k, pid) = &self.peers[self.far[i % self.far.len()]];
                         (k.clone(), *pid)
                     } else {
@@ -330,16 +348,38 @@ impl<'a> World<'a> {
                 }
                 _ => 90,
             };
-            let sig = match p.sigs.get(i).copied().unwrap_or(0) {
-                0 => QuoteSig::Valid,
+            let sform = p.sigs.get(i).copied().unwrap_or(0);
+            let sig = match sform {
+                0 | 4 | 5 => QuoteSig::Valid,
                 1 => QuoteSig::Forged,
                 2 => QuoteSig::OtherKey,
                 _ => QuoteSig::OtherNodesQuote,
             };
             let c = if is_self && p.zero_content { [0u8; 32] } else if is_self && p.other_addr { other_content } else { content };
-            let q = data::quote(&kp, &self.stranger_node, c, age, self.rewards, sig, self.delivered as u64 * 8 + i as u64);
+            // forms 4 / 5: the node signs (and the uploader pays) a quote for another address / two hours ago; the
+            // uploader then rewrites that field. The signature was made over other bytes: by construction it does not
+            // cover the quote that is presented, and what was paid on chain is the quote as signed.
+            let (c_signed, age_signed) = match sform {
+                4 => (other_content, age),
+                5 => (c, 7200),
+                _ => (c, age),
+            };
+            let mut q = data::quote(&kp, &self.stranger_node, c_signed, age_signed, self.rewards, sig, self.delivered as u64 * 8 + i as u64);
             if i < 3 {
                 self.chain.insert(q.hash(), p.chain[i] == 0);
+            }
+            match sform {
+                4 => {
+                    q.content = xor_name::XorName(c);
+                    self.rep.fault("quote_content_rewritten_after_signing");
+                }
+                5 => {
+                    q.timestamp = std::time::SystemTime::now() - std::time::Duration::from_secs(90);
+                    self.rep.fault("quote_timestamp_rewritten_after_signing");
+                }
+                _ => {}
+            }
+            if i < 3 {
                 if p.rpc_error {
                     self.rpc_fail.insert(q.hash());
                 }
@@ -1412,9 +1452,9 @@ impl<'a> World<'a> {
                         Ok(h) => {
                             let old = std::mem::replace(&mut self.host, h);
                             self.zombies.push(old);
-                            let peers: Vec<PeerId> = self.peers.iter().map(|(_, p)| *p).collect();
-                            for (i, pid) in peers.iter().enumerate() {
-                                self.host.driver.verif_add_peer(*pid, peer_addr(i, pid));
+                            for i in self.members.clone() {
+                                let pid = self.peers[i].1;
+                                self.host.driver.verif_add_peer(pid, peer_addr(i, &pid));
                             }
                             self.rep.fault("node_restarted");
                             self.rep.ops += 1;
@@ -1442,6 +1482,32 @@ impl<'a> World<'a> {
                         }
                         Err(e) => self.rep.harness_error = Some(format!("restart: {e}")),
                     }
+                }
+                Step::PeerLeaves { which } => {
+                    if !self.inflight.is_empty() {
+                        self.pump_fifo().await;
+                        self.evaluate("implicit-settle");
+                        if !self.rep.violations.is_empty() {
+                            continue;
+                        }
+                    }
+                    if self.close.len() <= 7 {
+                        self.rep.log("peer leaves: too few close peers left");
+                        continue;
+                    }
+                    let i = self.close[*which as usize % self.close.len()];
+                    let pid = self.peers[i].1;
+                    if !self.host.driver.verif_remove_peer(&pid) {
+                        self.rep.harness_error = Some("peer to remove is not in the routing table".into());
+                        continue;
+                    }
+                    self.members.retain(|m| *m != i);
+                    self.gone.push(i);
+                    self.classify_peers();
+                    self.rep.fault("close_peer_left_the_routing_table");
+                    self.rep.ops += 1;
+                    self.rep.log(format!("peer #{i} leaves the routing table ({} close, {} far remain)", self.close.len(), self.far.len()));
+                    self.drain().await;
                 }
                 Step::Settle => {
                     let hold = self.plan.mode == "lagging_writes";
